@@ -1,3 +1,4 @@
+import operator
 import threading
 from datetime import datetime
 try:
@@ -264,8 +265,37 @@ class _NotFoundValue():
     def __ne__(self, other):
         return False
 
+    def __lt__(self, other):
+        return False
+
+    def __le__(self, other):
+        return False
+
+    def __gt__(self, other):
+        return False
+
+    def __ge__(self, other):
+        return False
+
 
 NOT_FOUND = _NotFoundValue()
+
+_COMPARE_OPS = {
+    '==': operator.eq, '!=': operator.ne,
+    '<': operator.lt, '<=': operator.le,
+    '>': operator.gt, '>=': operator.ge,
+}
+
+
+def _compare(op, left, right):
+    """
+    Compare two values; values of kinds that cannot be compared (a number
+    with a string, quantities of different units...) do not match.
+    """
+    try:
+        return _COMPARE_OPS[op](left, right)
+    except TypeError:
+        return False
 
 
 def _get_path(grid, obj, paths):
@@ -275,13 +305,20 @@ def _get_path(grid, obj, paths):
             if i != len(paths)-1 and isinstance(obj, Ref):
                 obj = grid[obj.name]  # Follow the reference
         return obj  # It's a value at this time
-    except KeyError:
+    except (KeyError, TypeError, IndexError):
+        # Missing tag, dangling reference, or a value that has no tags
         return NOT_FOUND
 
 
 def _generate_filter_in_python(node, def_filter):
     if isinstance(node, FilterPath):
         def_filter.append("_get_path(_grid, _entity, %s)" % node.path)
+    elif isinstance(node, FilterBinary) and node.op in _COMPARE_OPS:
+        def_filter.append("_compare(%r, " % node.op)
+        def_filter.extend(_generate_filter_in_python(node.left, []))
+        def_filter.append(", ")
+        def_filter.extend(_generate_filter_in_python(node.right, []))
+        def_filter.append(")")
     elif isinstance(node, FilterBinary):
         def_filter.append("(")
         def_filter.extend(_generate_filter_in_python(node.left, []))
